@@ -104,6 +104,54 @@ def __binds(p):
     return list(pat_binds(p))
 
 
+# (gate, evaluator) -> (extra lengths, missing lengths, reason): reviewed differences of range loops w.r.t. eval_unfiltered
+LOOP_EXCEPTIONS = {
+    ('PoseidonGate', 'eval_unfiltered_circuit'): (['22'], [], 'the in-circuit evaluator has an explicit loop over the N_PARTIAL_ROUNDS - 1 partial rounds in its fallback branch (no PoseidonMdsGate available); the native evaluators call the fused partial-round helpers'),
+}
+
+
+def _msdiff(a, b):
+    out = list(a)
+    for x in b:
+        if x in out:
+            out.remove(x)
+    return out
+
+
+def loop_bounds(F, fn):
+    """lengths (end - start, as normalised polynomials) of all range loops / range-based iterator chains in a function"""
+    from . import poly
+    E = poly.Ev(F)
+    env = {}
+    for s in walk(fn.body):
+        if s.get('k') == 'Let' and 'i' in s and s['p'].get('k') == 'Bind' and s['p']['id'] not in env:
+            try:
+                env[s['p']['id']] = E.ev(fn, s['i'], env, 3)
+            except poly.Unknown as ex:
+                env[s['p']['id']] = ex
+    out = []
+    for n in walk(fn.body):
+        it = None
+        if n.get('k') == 'For':
+            it = n['it']
+        elif n.get('k') == 'MCall' and n['n'] in ('map', 'for_each', 'flat_map', 'filter_map'):
+            it = n['r']
+        if it is None:
+            continue
+        x = it
+        while isinstance(x, dict) and x.get('k') == 'MCall' and x['n'] in ('map', 'rev', 'enumerate', 'into_iter', 'iter', 'zip', 'collect', 'flat_map'):
+            x = x['r']
+        if isinstance(x, dict) and x.get('k') == 'Struct' and 'Range' in (x.get('d') or ''):
+            f = dict(x['f'])
+            try:
+                a = E.ev(fn, f['start'], env, 3) if 'start' in f else {}
+                b = E.ev(fn, f['end'], env, 3)
+                out.append(poly.show(poly.add(b, a, -1)))
+            except (poly.Unknown, KeyError):
+                out.append('?')
+    return sorted(out)
+
+
 def run(F, ck, tier):
     ck.rule('R07.1', 'every wire accessor used by the gate\'s witness generators flows into an emitted constraint in each evaluator')
     ck.rule('R07.2', 'the evaluators of one gate constrain the same wire accessors; if/else arms advance the same counters')
@@ -173,6 +221,34 @@ def run(F, ck, tier):
         vals = set(sites.values())
         ck.ob('R07.3', 'sites:%s' % short, len(vals) <= 2, 'emission sites per evaluator: %s' % sites if len(vals) <= 2 else 'emission sites differ widely across evaluators: %s' % sites)
     ck.floor('R07.1', 'accessor x evaluator instances', ninst, 120)
+    # R07.6 loop bounds agree across the evaluators of one gate
+    ck.rule('R07.6', 'the evaluators of one gate iterate over the same ranges: the multiset of range-loop lengths (as polynomials over the gate\'s fields) is the same in the extension, base and in-circuit evaluators')
+    nb = 0
+    for g in sorted(gates, key=lambda x: x['short']):
+        if g['short'] in NO_LOCAL_CONSTRAINTS:
+            continue
+        res = {}
+        for nm in ('eval_unfiltered', 'eval_unfiltered_circuit', 'eval_unfiltered_base_one'):
+            f = g['fns'].get(nm)
+            if f is not None and not is_stub(f):
+                res[nm] = loop_bounds(F, f)
+        if g['packed'] is not None:
+            res['eval_unfiltered_base_packed'] = loop_bounds(F, g['packed'])
+        ref = res.get('eval_unfiltered')
+        if ref is None:
+            continue
+        for nm, b in sorted(res.items()):
+            if nm == 'eval_unfiltered':
+                continue
+            nb += 1
+            extra = _msdiff(b, ref)
+            missing = _msdiff(ref, b)
+            allowed = LOOP_EXCEPTIONS.get((g['short'], nm), ([], []))
+            ok = sorted(extra) == sorted(allowed[0]) and sorted(missing) == sorted(allowed[1])
+            ck.ob('R07.6', 'loops:%s:%s' % (g['short'], nm), ok, ('same range loops as eval_unfiltered: %s' % ', '.join(ref) if not extra and not missing else 'reviewed difference: ' + LOOP_EXCEPTIONS[(g['short'], nm)][2]) if ok else
+                  'LOOP BOUND DISAGREEMENT in %s: %s iterates over ranges of length [%s] where eval_unfiltered has [%s]: the evaluators emit different constraints (a range taken from the wrong field, e.g. bits instead of num_copies)' %
+                  (g['short'], nm, ', '.join(b), ', '.join(ref)), '%s:%d' % ((g['fns'].get(nm) or g['packed']).file, (g['fns'].get(nm) or g['packed']).line))
+    ck.floor('R07.6', 'evaluator pairs with compared loop bounds', nb, 20)
     # R07.4
     one = [f for f in F.find('StridedConstraintConsumer::one', crate='plonky2')]
     if len(one) != 1:
